@@ -20,10 +20,16 @@ MOD = "pox.openflow.libopenflow_01:"
 ATTR = {"xid": "_xid"}
 
 
+# messages are decoded IN THE MIDDLE of a buffer (three bytes in front, two behind), the way both read loops hand them to the
+# decoders: a decoder that measures from the start of the buffer, or takes everything up to its end, is wrong for every message
+# that is not alone in the buffer (seeded changes C02_8 / C02_9, reported by the framing stand-in only until 2026-09-25)
+_FRONT, _BACK = b"\xaa\xbb\xcc", b"\xdd\xee"
+
+
 def _rt_message(o):
   p = o.pack()
-  r, o2 = type(o).unpack_new(p)
-  return (p, len(o), r, o2 == o, o2.pack())
+  r, o2 = type(o).unpack_new(_FRONT + p + _BACK, 3)
+  return (p, len(o), r - 3, o2 == o, o2.pack())
 
 
 def _rt_struct(o):
